@@ -14,8 +14,8 @@ TRUSTED = [
     'C04: the momentum sums of jordan_wigner_dual_basis_jellium / dual_basis_jellium_model (cos, pi; floating point) are '
     'not modelled: the Lean Model takes them as tables K(delta), P(delta) (the FermionOperator model is then compared '
     'exactly, the direct form exactly on its strings and to 1e-9 on its coefficients, counted as float_comparisons); '
-    'jordan_wigner_dual_basis_hamiltonian (external potential) has no Lean Model and is compared with '
-    'jordan_wigner(of the FermionOperator model) with absolute tolerance 1e-9 only',
+    'jordan_wigner_dual_basis_hamiltonian / plane_wave_hamiltonian(plane_wave=False): modelled the same way with the '
+    'table ext[k][x][j]; their float accumulations are compared with the exact-rational Model to 1e-9 only',
 ]
 ASSUMPTIONS = [
     'coefficients are dyadic Gaussian rationals with small numerators, on which IEEE double arithmetic of the '
@@ -51,8 +51,10 @@ OPEN_STATEMENTS = [
     'dual-basis-jellium-exact-tables (all hypotheses evaluated by the driver, all hold); (c) on the 20 of 64 float runs (the 10 runs on the 2x3 / 3x2 grids, both paths) whose '
     'exact-regime flag fails (a coefficient that is an exact-zero sum evaluated to ~1e-15 is deleted by +=) nothing beyond (a) '
     'and the numeric 1e-9 comparison fast-path vs jordan_wigner(model) of stream dual-basis-jellium is claimed',
-    'jordan_wigner_dual_basis_hamiltonian: no Model (float cos/pi); compared with jordan_wigner of the FermionOperator '
-    'model, tolerance 1e-9',
+    'jw_dual_basis_hamiltonian_sound IS a theorem (jellium hypotheses + exact-regime flags, coefficient table ext and the '
+    'zero-momentum test abstract); for the library both paths accumulate many float coefficients on one key, so the '
+    'correspondence with the Model is exact on the sets of strings and 1e-9 on coefficients (stream '
+    'dual-basis-hamiltonian-model); the theorem is applied to exact rational tables (stream dual-basis-jellium-exact-tables)',
 ]
 
 ERRS = (TypeError, ValueError, IndexError, KeyError, AttributeError, RuntimeError, ZeroDivisionError,
@@ -858,6 +860,116 @@ def stream_jellium_model(ctx):
     return st
 
 
+def stream_dual_basis_hamiltonian_model(ctx):
+    of = ctx.of
+    import importlib
+    import numpy as np
+    pw = importlib.import_module('openfermion.hamiltonians.plane_wave_hamiltonian')
+    md = importlib.import_module('openfermion.chem.molecular_data')
+    from openfermion.utils import Grid
+    st = Stream('dual-basis-hamiltonian-model', 'Model of jordan_wigner_dual_basis_hamiltonian and of '
+                'plane_wave_hamiltonian(plane_wave=False) with a geometry (external potential of nuclei on top of the jellium '
+                'Model): index structure exact (loops over momenta / qubits / nuclei resp. positions / nuclei / momenta / '
+                'spins, orbital numbering, skipped zero momentum, "operator = first term", Q((), c) - Q(Z_p, c) pairs, final '
+                '+), coefficient table ext[k][x][j] = (-2 pi / Omega) / k^2 Z_j cos(k.(R_j - r_x)) computed with the '
+                'library\'s own float operations (the FermionOperator form uses exactly twice it): both paths '
+                'accumulate many float coefficients on one key (rounding) where the Model adds the same numbers exactly, so '
+                'both are compared exactly on their sets of strings (coefficients above 1e-7) and to 1e-9 on coefficients; '
+                'grids 1-D / 2-D, unequal lengths, sheared cell, spinless / spinful, 1-2 nuclei')
+    grids = [(1, 2, 1.0), (1, 3, 2.0), (1, 4, 1.5), (2, 2, 1.0), (2, (2, 3), 1.0), (2, (3, 2), 1.5),
+             (2, 2, np.diag([1.0, 1.7])), (2, (2, 3), np.array([[1.0, 0.3], [0.0, 1.2]]))]
+    if ctx.tier == 'thorough' or ctx.drift:
+        grids += [(1, 5, 0.75), (3, 2, 1.0), (2, 3, 2.0)]
+    reqs = []
+    for (d, l, scale) in grids:
+        cubic = isinstance(scale, float)
+        cell = np.asarray(scale) if not cubic else np.diag([scale] * d)
+        geos = [[('H', tuple(cell.dot(np.array([0.25] * d))))],
+                [('H', tuple(cell.dot(np.array([0.25] * d)))), ('He', tuple(cell.dot(np.array([0.6, 0.35, 0.8][:d]))))]]
+        for spinless in (True, False):
+            grid = Grid(d, l, scale)
+            if grid.num_points * (1 if spinless else 2) > 16:
+                continue
+            lengths = [int(x) for x in grid.length]
+            ok, tabs = call(st, 'grid vectors', {'grid': [d, lengths]}, lambda: jellium_tables(grid, np))
+            if not ok:
+                continue
+            pts, kin, pot, K, P = tabs
+            for geometry in geos:
+                def tables():
+                    volume = grid.volume_scale()
+                    prefactor = -2 * np.pi / volume
+                    n = grid.num_points
+                    tf = lambda idx: sum(i * int(np.prod(lengths[:dd])) for dd, i in enumerate(idx))   # noqa: E731
+                    skip = [False] * n
+                    ext = [[[0.0] * len(geometry) for _ in range(n)] for _ in range(n)]
+                    for k in pts:
+                        momenta = grid.momentum_vector(k)
+                        msq = momenta.dot(momenta)
+                        if msq == 0:
+                            skip[tf(k)] = True
+                            continue
+                        for x in pts:
+                            coordinate_p = grid.position_vector(x)
+                            for j, nuc in enumerate(geometry):
+                                coordinate_j = np.array(nuc[1], float)
+                                cos_index = momenta.dot(coordinate_j - coordinate_p)
+                                ext[tf(k)][tf(x)][j] = (prefactor / msq * md.periodic_hash_table[nuc[0]] * np.cos(cos_index))
+                    return skip, ext
+                ok, se = call(st, 'external potential table', {'grid': [d, lengths]}, tables)
+                if not ok:
+                    continue
+                skip, ext = se
+                shown = [d, lengths, scale if cubic else np.asarray(scale).tolist()]
+                case = {'fn': 'jordan_wigner_dual_basis_hamiltonian / plane_wave_hamiltonian(plane_wave=False)',
+                        'grid': shown, 'spinless': spinless, 'geometry': [[a, list(map(float, b))] for a, b in geometry]}
+                st.case(case)
+                st.count('hamiltonian-model:d=%d:%s:%d nuclei' % (d, 'spinless' if spinless else 'spinful', len(geometry)))
+                args = {'lengths': lengths, 'spinless': spinless, 'kin': [to_gq(x) for x in K], 'pot': [to_gq(x) for x in P],
+                        'constant': None, 'nuclei': len(geometry), 'skip': skip,
+                        'ext': [[[to_gq(float(c)) for c in row] for row in plane] for plane in ext]}
+                ok1, F = call(st, 'plane_wave_hamiltonian(plane_wave=False)', case,
+                              lambda: pw.plane_wave_hamiltonian(grid, geometry, spinless, False, False))
+                ok2, Q = call(st, 'jordan_wigner_dual_basis_hamiltonian', case,
+                              lambda: pw.jordan_wigner_dual_basis_hamiltonian(grid, geometry, spinless, False))
+                if ok1:
+                    reqs.append(('model', case, enc_op('fermion', F.terms), dict(args, op='c04.dbh_model')))
+                    reqs.append(('ok', case, None, dict(args, op='c04.dbh_model_ok')))
+                if ok2:
+                    reqs.append(('direct', case, enc_op('qubit', Q.terms), dict(args, op='c04.dbh_direct')))
+                    reqs.append(('ok', case, None, dict(args, op='c04.dbh_direct_ok')))
+    answers = ctx.driver.run([r[3] for r in reqs])
+    from common import from_gq
+    for (kind, case, impl, _), mo in zip(reqs, answers):
+        if kind == 'ok':
+            st.count('float tables, exact-regime flag of this path: %s' % ('holds' if mo else 'fails (a partial sum of '
+                     'rounding size, ~1e-17, is deleted by += in the exact-rational run of the Model)'))
+        else:
+            # both paths accumulate many float coefficients on the same key (sum over momenta and nuclei), which
+            # rounds; the Model adds the same numbers exactly: keys are compared exactly, coefficients to 1e-9
+            ki = {json_key(t): c for t, c in impl}
+            km = {json_key(t): c for t, c in mo}
+            tiny = lambda c: abs(complex(*[float(x) for x in from_gq(c)])) < 1e-7      # noqa: E731
+            if {k for k in ki if not tiny(ki[k])} != {k for k in km if not tiny(km[k])}:
+                st.disagree(('plane_wave_hamiltonian(plane_wave=False)' if kind == 'model' else
+                             'jordan_wigner_dual_basis_hamiltonian') + ': set of strings differs', case,
+                            sorted(set(ki) - set(km))[:5], sorted(set(km) - set(ki))[:5])
+                continue
+            big = max([1.0] + [abs(complex(*[float(x) for x in from_gq(c)])) for c in km.values()])
+            worst = 0.0
+            zero = [0, 1, 0, 1]
+            for k in set(ki) | set(km):
+                a = complex(*[float(x) for x in from_gq(ki.get(k, zero))])
+                b2 = complex(*[float(x) for x in from_gq(km.get(k, zero))])
+                worst = max(worst, abs(a - b2))
+            st.float_comparisons += len(set(ki) | set(km))
+            if worst > 1e-9 * big:
+                st.violate(('plane_wave_hamiltonian(plane_wave=False)' if kind == 'model' else
+                            'jordan_wigner_dual_basis_hamiltonian') + ': coefficient differs from the Model', case,
+                           {'max_abs_difference': worst})
+    return st
+
+
 COS_TABLE = {1: {0: 1}, 2: {0: 1, 1: -1}, 3: {0: 1, 1: Fraction(-1, 2), 2: Fraction(-1, 2)},
              4: {0: 1, 1: 0, 2: -1, 3: 0},
              6: {0: 1, 1: Fraction(1, 2), 2: Fraction(-1, 2), 3: -1, 4: Fraction(-1, 2), 5: Fraction(1, 2)}}
@@ -870,8 +982,9 @@ def stream_jellium_exact(ctx):
     st = Stream('dual-basis-jellium-exact-tables', 'grids whose cosines are rational (lcm of the lengths in {1,2,3,4,6}): '
                 'K(delta) = sum_k cos(k.r_delta) |m_k|^2 / 2n and P(delta) = sum_k cos(k.r_delta) / |m_k|^2 computed as exact '
                 'rationals from the library\'s momentum integers (units 2 pi / a = 1, prefactor 2 pi / Omega = 1); on these the '
-                'driver evaluates ALL hypotheses of jw_jellium_direct_sound_of_flags (K, P even and sum P = 0 exactly; both '
-                'exact-regime flags) and the Spec oracle re-checks the conclusion (the Model direct form acts like the Model '
+                'driver evaluates ALL hypotheses of jw_jellium_direct_sound_of_flags and (with two nuclei placed on grid points, '
+                'ext[k][x][j] = -Z_j cos(k.(R_j - r_x)) / |m_k|^2) of jw_dual_basis_hamiltonian_sound (K, P even and sum P = 0 '
+                'exactly; both exact-regime flags) and the Spec oracle re-checks the conclusion (the Model direct form acts like the Model '
                 'FermionOperator on every basis state, n_qubits <= 10); spinless and spinful, with and without a constant')
     shapes = [(2,), (3,), (4,), (6,), (2, 2), (2, 3), (3, 2), (3, 3), (2, 4), (4, 2), (2, 2, 2), (6, 1), (1, 3, 2)]
     if ctx.tier == 'thorough' or ctx.drift:
@@ -923,6 +1036,31 @@ def stream_jellium_exact(ctx):
                            'c04.jellium_model'):
                     reqs.append(dict(args, op=op))
                 meta.append((case, nq))
+            # with nuclei sitting on grid points (rational cosines): jw_dual_basis_hamiltonian_sound
+            nuclei = [(pts[0], 1), (pts[-1], 2)]
+            skip = [False] * n
+            ext = [[[Fraction(0)] * len(nuclei) for _ in range(n)] for _ in range(n)]
+            tfi = lambda idx: sum(i * int(numpy.prod(shape[:dd])) for dd, i in enumerate(idx))     # noqa: E731
+            for kpt in pts:
+                m = mints[kpt]
+                msq = sum(x * x for x in m)
+                if msq == 0:
+                    skip[tfi(kpt)] = True
+                    continue
+                for xpt in pts:
+                    for j, (rj, zj) in enumerate(nuclei):
+                        r = sum(mi * (a - b2) * (D // L) for mi, a, b2, L in zip(m, rj, xpt, shape)) % D
+                        ext[tfi(kpt)][tfi(xpt)][j] = -Fraction(zj) * Fraction(COS_TABLE[D][r]) / msq
+            case = {'fn': 'jw_dual_basis_hamiltonian_sound (exact tables)', 'lengths': list(shape), 'spinless': spinless,
+                    'nuclei_at': [list(rj) for rj, _ in nuclei]}
+            st.case(case)
+            st.count('exact-tables with nuclei:d=%d:%s' % (d, 'spinless' if spinless else 'spinful'))
+            args = {'lengths': list(shape), 'spinless': spinless, 'kin': [to_gq(x) for x in K], 'pot': [to_gq(x) for x in P],
+                    'constant': None, 'nuclei': len(nuclei), 'skip': skip,
+                    'ext': [[[to_gq(c) for c in row] for row in plane] for plane in ext]}
+            for op in ('c04.jellium_hyp', 'c04.dbh_direct_ok', 'c04.dbh_model_ok', 'c04.dbh_direct', 'c04.dbh_model'):
+                reqs.append(dict(args, op=op))
+            meta.append((case, nq))
     ans = ctx.driver.run(reqs)
     oreqs, ocases = [], []
     for i, (case, nq) in enumerate(meta):
@@ -1588,4 +1726,5 @@ def stream_hardening(ctx):
 
 def run(ctx):
     return [stream_fermion(ctx), stream_helpers(ctx), stream_tensors(ctx), stream_reverse(ctx),
-            stream_jellium(ctx), stream_jellium_model(ctx), stream_jellium_exact(ctx), stream_hardening(ctx)]
+            stream_jellium(ctx), stream_jellium_model(ctx), stream_jellium_exact(ctx), stream_dual_basis_hamiltonian_model(ctx),
+            stream_hardening(ctx)]
